@@ -82,6 +82,11 @@ CLAIMED = {
     "C35": ("FRAME monogram adjacency over the trackers and collision algorithms; REVERSE rules on the mustReverse handling of ContactTrackerSubsystem (mirror-image calls, stored surface order, type-id pair normalisation)",
             "Static decision of two structural clauses of C35 (DESIGN section 3): frame adjacency at every parseable rotation/transform product or named assignment in the contact trackers (a swapped/dropped ~ or wrong transform is wrong for every non-identity pose), "
             "and complete, consistent reversal handling between surface order and tracker order. Overlap tests, depths, tolerance bands and mesh traversal are numerical geometry and NOT decided; about a third of the products carry parseable names on both sides."),
+    "C43": ("TOL (every normal return of Assembler::assemble/track behind a successful tolerance test whose tested norm -- and the returned goal -- is that of the configuration left in the State: configuration-epoch analysis over q-changing calls, snapshots and restorations), REVERT, LOCKED (who-writes + free-index confinement + lock-source coverage), BOUNDS, ERRLIST",
+            "Static decision of the reporting and confinement clauses of C43 for the Assembler (DESIGN section 3): assemble()/track() can return normally only after `error norm <= getErrorToleranceInUse()` was tested on a norm measured in the configuration that is returned (or copied from a measurement whose configuration was restored from a free-q snapshot taken in that same configuration); "
+            "the returned goal likewise; assemble() restores the initial free q's and reports the initial goal when the optimizer made the goal worse; q's of the internal State are written only by tabled functions, optimizer callbacks only through setInternalStateFromFreeQs, which writes free indices only, and the free-index map excludes every prescribed / locked q; "
+            "limits reach the optimizer system in (lower, upper) order; every infinite-weight condition with error terms is evaluated into consecutive slots of the vector whose max-abs / RMS is the tested norm. "
+            "Optimizer convergence, 'the goal reaches zero for achievable targets', ObservedPointFitter and LocalEnergyMinimizer are numerical / have no result test in the code and are NOT decided."),
 }
 NA = {
  "C01": "numerical identity between O(n) recursions; no clause is visible in the shape of the code",
@@ -107,7 +112,6 @@ NA = {
  "C40": "error bounds are numerical analysis",
  "C41": "derivative/value consistency of formulas is numerical/symbolic",
  "C42": "graph-algorithm post-condition over all input graphs needs a proof of the algorithm, not a shape rule",
- "C43": "success reporting compares computed norms and goals",
  "C44": "active-set / Gauss-Seidel outcomes are numerical",
  "C45": "lengths, rates and power are numerical; frame lint alone is too little of the property",
  "C47": "on-surface residuals and agreement between integrators are numerical",
